@@ -38,6 +38,17 @@ Add(a, k, M) == (a + k) % M
 (*                                                                         *)
 (* C09: "Ordering and distance of two sequence numbers agree with true     *)
 (* modular distance for every distance the configured windows allow."      *)
+(*                                                                         *)
+(* The tolerance W must therefore be at least the largest window, in       *)
+(* packets, that the configuration allows (receive slots, segments in      *)
+(* flight, SACK reach).  The lemmas need 2 * W < M, so W = M/2 - 1 = 32767  *)
+(* is the largest tolerance 16-bit arithmetic admits; with it the only     *)
+(* distance beyond the tolerance is the antipode |Dist| = M/2 = 32768,     *)
+(* whose modular order is ambiguous anyway.  The former value W = 1024 was *)
+(* the defect D8 (the default receive buffer alone allows 1985 packets):   *)
+(* beyond the tolerance Offset is the plain integer difference, i.e. the   *)
+(* wrong order across the wrap (smallest witness for W = 1024:             *)
+(* a = 0, b = 64511: b is 1025 behind a, Offset says a < b).               *)
 (***************************************************************************)
 SeqSign(x) == IF x < 0 THEN -1 ELSE IF x > 0 THEN 1 ELSE 0
 
@@ -98,10 +109,14 @@ OrdWrongAt(a, b, M, W) ==
     /\ 2 * Abs(Dist(a, b, M)) < M
     /\ SeqCmp(a, b, M, W) # SeqSign(Dist(a, b, M))
 
-(* three numbers within one window of W are ordered consistently            *)
-OrdTransitiveAt(a, b, c, M, W) ==
-    (/\ Abs(Dist(a, b, M)) <= W /\ Abs(Dist(b, c, M)) <= W /\ Abs(Dist(a, c, M)) <= W
-     /\ SeqCmp(a, b, M, W) < 0 /\ SeqCmp(b, c, M, W) < 0) => SeqCmp(a, c, M, W) < 0
+(* every two numbers of one window [base, base + W] compare like their       *)
+(* positions in the window (this is what a protocol window needs; it implies *)
+(* transitivity of the order inside a window).  NB: "pairwise within W" is    *)
+(* NOT enough for transitivity once 3 * W >= M (cyclic order).                *)
+WindowOrderAt(base, x, y, M, W) ==
+    (x \in 0..W /\ y \in 0..W) =>
+        /\ Offset(Add(base, x, M), Add(base, y, M), M, W) = x - y
+        /\ SeqCmp(Add(base, x, M), Add(base, y, M), M, W) = SeqSign(x - y)
 
 (* the walk of SeqTrace: k steps forward/backward and the offset to where   *)
 (* it started is k again as long as k is within the tolerance               *)
